@@ -18,7 +18,9 @@
      Palette  attribute / snippet palette built from the constants of treecleaner.py that switch
               cleaning passes on (C05/C06); any use clears flags.clean.
      Free     arbitrary lexemes at any point (malformed markup, C05/C06); sets flags.mal.
-   C02 and C07 only use documents with flags.clean /\ ~flags.mal. *)
+   C02 uses documents with flags.clean /\ ~flags.mal.  C07 uses those that additionally have
+   flags.lossless: ordinary lists (a deeper level only below an open shallower one), no empty
+   section (a heading with no visible word before the next heading / the end). *)
 EXTENDS Naturals, Sequences, FiniteSets, TLC, Json
 
 CONSTANTS MaxProd,        \* productions per document (fuel)
@@ -62,6 +64,7 @@ LineStart ==
   LET idx == {i \in 1..Len(out) : out[i].t \in {"nl", "bl"}} IN
   IF idx = {} THEN 1 ELSE (CHOOSE i \in idx : \A j \in idx : j <= i) + 1
 WordsOnLine == \E i \in LineStart..Len(out) : out[i].t = "w"
+IsWordTok(tk) == tk.t = "w" \/ (tk.t = "lo" /\ tk.b = 0)
 IsApos(tk) == tk.t \in {"so", "sc"} /\ tk.b = 0
 AposOnLine == Cardinality({i \in LineStart..Len(out) : IsApos(out[i])})
 
@@ -122,7 +125,7 @@ LineEmpty == Last.t \in {"nl", "bl"} \/ out = <<>>
 -----------------------------------------------------------------------------
 Init == /\ out = <<>> /\ den = <<>> /\ stack = <<>> /\ sec = <<>> /\ lctx = <<>>
         /\ pos = "bol" /\ fuel = MaxProd
-        /\ flags = [clean |-> TRUE, mal |-> FALSE]
+        /\ flags = [clean |-> TRUE, mal |-> FALSE, lossless |-> TRUE]
         /\ done = FALSE
 
 (* ---------------------------------------------------------------- inline productions *)
@@ -244,6 +247,11 @@ EndLine ==
 RECURSIVE PopSec(_, _)
 PopSec(s, l) == IF s # <<>> /\ s[Len(s)] >= l THEN PopSec(Pop(s), l) ELSE s
 
+\* a heading with no visible word after it (before the next heading / the end): an empty section,
+\* which the cleaner documents as removable (outside C07's lossless domain)
+HeadingOpen == \E i \in 1..Len(out) : out[i].t = "h" /\ out[i].b = 1 /\ \A j \in (i + 1)..Len(out) : ~IsWordTok(out[j])
+NoEmptySection == IF HeadingOpen THEN [flags EXCEPT !.lossless = FALSE] ELSE flags
+
 Heading ==
   /\ AtBol /\ stack = <<>> /\ CanOpen /\ NW <= MaxWords
   /\ \E l \in 2..4 :
@@ -251,7 +259,8 @@ Heading ==
        /\ sec' = Append(PopSec(sec, l), l)
        /\ stack' = Append(stack, Fr("head", l, 0, 0))
   /\ pos' = "inl" /\ lctx' = <<>>
-  /\ Spend /\ Same(<<den, flags, done>>)
+  /\ flags' = NoEmptySection
+  /\ Spend /\ Same(<<den, done>>)
 
 ParaLine ==
   /\ BlockOK /\ CanOpen /\ NW <= MaxWords
@@ -292,10 +301,9 @@ Ordinary(p) == Len(p) <= Len(lctx) + 1 /\ \A i \in 1..(Len(p) - 1) : p[i] = lctx
 ListLine ==
   /\ BlockOK /\ CanOpen /\ NW <= MaxWords
   /\ \E p \in Prefixes :
-       /\ Palette \/ Ordinary(p)
        /\ out' = Append(out, Tok("li", PrefixCode(p), Len(p)))
        /\ lctx' = NewCtx(p)
-       /\ flags' = IF Ordinary(p) THEN flags ELSE [flags EXCEPT !.clean = FALSE]
+       /\ flags' = IF Ordinary(p) THEN flags ELSE [flags EXCEPT !.lossless = FALSE]
   /\ stack' = Append(stack, Fr("li", 0, 0, 0))
   /\ pos' = "inl"
   /\ Spend /\ Same(<<den, sec, done>>)
@@ -312,7 +320,7 @@ OpenTable ==
   /\ BlockOK /\ CanOpen /\ fuel > CloseCost + 4 /\ Count("table") < MaxTables /\ NW <= MaxWords
   /\ \E at \in (IF Palette THEN 0..NAttrs ELSE {0}) :
        /\ out' = out \o <<Tok("tb", at, 0), Tok("nl", 0, 0)>>
-       /\ flags' = IF at = 0 THEN flags ELSE [flags EXCEPT !.clean = FALSE]
+       /\ flags' = IF at = 0 THEN flags ELSE [flags EXCEPT !.clean = FALSE, !.lossless = FALSE]
   /\ stack' = Append(stack, Fr("table", 0, 0, 2))
   /\ lctx' = <<>>
   /\ Spend /\ Same(<<den, sec, pos, done>>)
@@ -341,7 +349,7 @@ Cell ==
   /\ \E h \in {0, 1}, at \in (IF Palette THEN {0, 1, 2} ELSE {0}) :
        /\ out' = Append(out, Tok("tc", h, at))
        /\ stack' = NewCellFrames(h)
-       /\ flags' = IF at = 0 THEN flags ELSE [flags EXCEPT !.clean = FALSE]
+       /\ flags' = IF at = 0 THEN flags ELSE [flags EXCEPT !.clean = FALSE, !.lossless = FALSE]
   /\ pos' = "inl" /\ lctx' = <<>>
   /\ Spend /\ Same(<<den, sec, done>>)
 
@@ -367,7 +375,7 @@ OpenDiv ==
   /\ BlockOK /\ CanOpen /\ Count("div") < 2
   /\ \E at \in (IF Palette THEN 0..NAttrs ELSE {0}) :
        /\ out' = out \o <<Tok("do", at, 0), Tok("nl", 0, 0)>>
-       /\ flags' = IF at = 0 THEN flags ELSE [flags EXCEPT !.clean = FALSE]
+       /\ flags' = IF at = 0 THEN flags ELSE [flags EXCEPT !.clean = FALSE, !.lossless = FALSE]
   /\ stack' = Append(stack, Fr("div", 0, 0, 0))
   /\ lctx' = <<>>
   /\ Spend /\ Same(<<den, sec, pos, done>>)
@@ -380,7 +388,7 @@ CloseDiv ==
   /\ Spend /\ Same(<<den, sec, pos, flags, done>>)
 
 (* ---------------------------------------------------------------- palette (C05/C06 only) *)
-Dirty == flags' = [flags EXCEPT !.clean = FALSE]
+Dirty == flags' = [flags EXCEPT !.clean = FALSE, !.lossless = FALSE]
 
 \* inline wrapper <span ATTR>…</span>
 OpenSpan ==
@@ -441,13 +449,14 @@ ListCell ==
 Lexeme ==
   /\ Free /\ ~done /\ fuel > 0
   /\ \E k \in 1..NLex : out' = Append(out, Tok("lex", k, 0))
-  /\ flags' = [clean |-> FALSE, mal |-> TRUE]
+  /\ flags' = [clean |-> FALSE, mal |-> TRUE, lossless |-> FALSE]
   /\ Spend /\ Same(<<den, stack, sec, lctx, pos, done>>)
 
 -----------------------------------------------------------------------------
 End == /\ ~done /\ AtBol /\ stack = <<>> /\ (Len(out) >= MinOut \/ fuel <= 2) /\ den # <<>>
        /\ done' = TRUE
-       /\ Same(<<out, den, stack, sec, lctx, pos, fuel, flags>>)
+       /\ flags' = NoEmptySection
+       /\ Same(<<out, den, stack, sec, lctx, pos, fuel>>)
 
 \* a free document may end anywhere
 EndFree == /\ Free /\ ~done /\ flags.mal /\ fuel = 0
@@ -467,8 +476,7 @@ Spec == Init /\ [][Next]_vars
 
 -----------------------------------------------------------------------------
 (* invariants of the generator itself (oracle sanity) *)
-IsWord(tk) == tk.t = "w" \/ (tk.t = "lo" /\ tk.b = 0)
-WordToks == SelectSeq(out, IsWord)
+WordToks == SelectSeq(out, IsWordTok)
 
 \* every word occurs exactly once in den
 WordsOnce == \A i, j \in 1..Len(den) : den[i].w = den[j].w => i = j
